@@ -339,6 +339,8 @@ pub fn scope(name: &str) -> Scope {
             false,
             &['a', 'b', 'c', 'd'],
         ),
+        // line-anchored terms that consume newlines: several matches on consecutive lines
+        "ANL" => Scope::new("ANL", &["(?:^a)", "a", "\\n", "^", "(?:a$)", ".", "[^b]"], &["?", "*"], false, &['a', '\n', 'b']),
         // character classes inside capturing groups (first-character filters derived
         // through a leading group)
         "CLG" => Scope::new("CLG", &["[ab]", "[cd]", "\\d", "a"], &["?", "*", "+"], true, &['a', 'b', 'c', 'd', '1']),
